@@ -68,12 +68,13 @@ theorem fill_ok_float (E : FloatExt) (hE : FloatSpec E) (x : FBits) (hx : Canon 
 
 /-- **row_roundtrip** – `csv.reader(skipinitialspace=True)` over the lines `csv.writer`
 (QUOTE_MINIMAL) wrote returns the records, for every number of records and fields, every
-delimiter that is not a blank / quote / line break, and all fields without line breaks and without
-a leading blank (delimiters, quotes, inner and trailing blanks inside fields are fine). -/
+delimiter that is not a quote / line break, and all fields without line breaks and without
+a leading blank (delimiters, quotes, inner and trailing blanks inside fields are fine); with a
+blank as delimiter the fields must be non-empty (`BlankOK`: `skipinitialspace` swallows an empty field). -/
 theorem row_roundtrip (d : Char) (hd : DelimOK d) (rows : List (List Str))
-    (hne : ∀ r ∈ rows, r ≠ []) (hf : ∀ r ∈ rows, ∀ f ∈ r, FieldOK f) :
+    (hne : ∀ r ∈ rows, r ≠ []) (hf : ∀ r ∈ rows, ∀ f ∈ r, FieldOK f) (hb : ∀ r ∈ rows, ∀ f ∈ r, BlankOK d f) :
     readRows d (rows.map (fun r => writeRow d r ++ ['\n'])) = some rows :=
-  readRows_writeRows d hd rows hne hf
+  readRows_writeRows d hd rows hne hf hb
 
 /-! ## layer 4: header codec -/
 
@@ -101,9 +102,11 @@ theorem yaml_identifier_plain_resolution (n : Str) (h : isIdentifier n = true) :
 def HeaderSafe (E : FloatExt) (s : Schema) : Prop :=
   ∃ dc m fs, s = ⟨some [dc], some m, some fs⟩ ∧ HeaderOK E dc m fs
 
-/-- equal-length columns (`n ≥ 1` rows), one per field, each representable (`ColOK`) -/
+/-- equal-length columns (`n ≥ 1` rows), one per field, each representable (`ColOK`); if the delimiter
+is a blank, no written field is empty (missing marker and cell texts non-empty) -/
 def Representable (E : FloatExt) (s : Schema) (data : List (List Val)) : Prop :=
-  ∃ dc m fs n, s = ⟨some [dc], some m, some fs⟩ ∧ 0 < n ∧ Rect n data ∧ Forall₂ (ColOK E m) fs data
+  ∃ dc m fs n, s = ⟨some [dc], some m, some fs⟩ ∧ 0 < n ∧ Rect n data ∧ Forall₂ (ColOK E m) fs data ∧
+    (dc = ' ' → m ≠ [] ∧ ∀ col ∈ data, ∀ d ∈ col, pyStr E d ≠ [])
 
 /-- **save_read_roundtrip** – for every valid schema, every representable data set and externals
 satisfying the assumed spec: `save_scsv` succeeds, and `read_scsv` of the written file returns the
@@ -114,9 +117,9 @@ theorem save_read_roundtrip (E : FloatExt) (hE : FloatSpec E) (s : Schema) (data
     ∃ txt fs, s.fields = some fs ∧ save E s data = .ok txt ∧
       read E txt = .ok (fieldNames fs, expectedTable E fs data) := by
   obtain ⟨dc, m, fs, rfl, hok⟩ := hh
-  obtain ⟨dc', m', fs', n, heq, hn, hrect, hcols⟩ := hr
+  obtain ⟨dc', m', fs', n, heq, hn, hrect, hcols, hblank⟩ := hr
   cases heq
-  obtain ⟨txt, h1, h2⟩ := read_save E hE dc m fs data n hv hok hn hrect hcols
+  obtain ⟨txt, h1, h2⟩ := read_save E hE dc m fs data n hv hok hn hrect hcols hblank
   exact ⟨txt, fs, rfl, h1, h2⟩
 
 /-! ## single faults (as the code is written) -/
